@@ -47,7 +47,7 @@ IsProperSub(h, n) == Len(h) > Len(n) /\ IsSuffix(n, h)
 NameHost(n) == [isip |-> FALSE, n |-> n]
 IPHost(tok) == [isip |-> TRUE, n |-> <<tok>>]
 
-V6Tokens == {"r6", "i6", "j6", "null6", "cust6", "sent6"}
+V6Tokens == {"r6", "i6", "j6", "null6", "cust6", "cust6b", "sent6"}
 IsV6(tok) == tok \in V6Tokens
 
 SeqRange(s) == {s[i] : i \in DOMAIN s}
